@@ -26,6 +26,7 @@ fn unit_scenario(direct: Direct, initial_parts: Vec<(u8, u16)>, steps: Vec<Step>
         freeze: None,
         hold: vec![],
         freeze_polls: false,
+        initial_pending: vec![],
     }
 }
 
